@@ -35,10 +35,10 @@ Task: produce {n} different, independent changes to the library source (each a s
  (a) still imports/compiles and keeps the existing tests passing as described above,
  (b) BREAKS the property above, and
  (c) needs something specific to manifest - an unusual input or parameter regime, a particular branch (sign pattern, dimension 3 only, an end point exactly on a grid state, an infinite bound), a multi-step sequence of operations, a particular history - NOT something that any ordinary use exposes at once.
-Spread the changes over different functions/classes of the anchored files; prefer places a first reader would NOT pick (helpers deep in the files, rarely used branches, second-order effects through a collaborator), since the obvious ones have been tried already.
+Spread the changes over different functions/classes of the anchored files; prefer places a first reader would NOT pick (helpers deep in the files, rarely used branches, second-order effects through a collaborator), since the obvious ones have been tried already. Changes that only show through a HISTORY have been the hardest to notice so far: something cached at construction and not refreshed when an attribute is reassigned, a view / alias of an array that a later in-place update modifies, a class-level or module-level memo shared by two objects, state left behind by an earlier call on the same object, a second product date / second pass / second level - at least one of your changes should be of that kind.
 
 For each change i = 1..{n} write, under /tmp/seed_{pid.lower()}{wave}/<i>/ :
   - patch.diff : `git diff` of that single change against the worktree's HEAD (apply-able with `git apply` / `patch -p1` at the repo root),
   - demo.py : a small standalone program that exits 0 on the unmodified code and exits non-zero (assert failure) with the change applied, demonstrating the violated property on the specific input it needs,
   - meta.json : {{"property": "{pid}", "summary": ..., "needs_to_manifest": ..., "files": [...], "ran": [commands you ran and their outcome]}}.
-Make each change in the worktree, generate the diff, run the test command and the demo with the change, then `git -C {wt} checkout -- .` to reset before the next one, and run the demo on the clean tree to confirm it passes there. Do not commit anything. Keep it efficient: do not run the full test-suite more often than needed (once per change). Report at the end a short list of the changes, one line each, and mention any property violation you noticed on the UNMODIFIED code.""")
+Make each change in the worktree, generate the diff, run the test command and the demo with the change, then `git -C {wt} checkout -- .` to reset before the next one, and run the demo on the clean tree to confirm it passes there. Do not commit anything and NEVER use `git stash` (the stash is shared between all worktrees of the repository and other people are working in theirs; reset with `git checkout -- .` only). Keep it efficient: do not run the full test-suite more often than needed (once per change). Report at the end a short list of the changes, one line each, and mention any property violation you noticed on the UNMODIFIED code.""")
